@@ -27,7 +27,7 @@ func TestEnum(t *testing.T) {
 	defer CloseFixtures()
 	memDepth, diskDepth := 4, 3
 	if hx.Thorough() {
-		memDepth, diskDepth = 6, 5
+		memDepth, diskDepth = 5, 4
 	}
 	sh, n := hx.Shard()
 	var total int64
